@@ -129,6 +129,50 @@ def real_damaged(codegen=False):
         shutil.rmtree(d, ignore_errors=True)
 
 
+def real_crash():
+    """Interrupt the real save_model at three points (KeyboardInterrupt: no 'except Exception' clean-up runs), then
+    call the real transfer_model twice more: both must return a model.  -> (runs, list of failures)"""
+    import pickle as _pickle
+    import types
+    from pymoca.backends.casadi import api as A
+    logging.disable(logging.CRITICAL)
+    bad, runs = [], 0
+    for mode in ("before-first-byte", "mid-dump", "after-dump-before-close"):
+        d = tempfile.mkdtemp(prefix="c21c_")
+        try:
+            open(os.path.join(d, "T.mo"), "w").write(T1.replace("  L l;\n", "").replace(" + l.v", ""))
+
+            def dump(obj, f, protocol=None, _mode=mode):
+                data = _pickle.dumps(obj, protocol=protocol)
+                if _mode == "mid-dump":
+                    f.write(data[: len(data) // 2])
+                    f.flush()
+                elif _mode == "after-dump-before-close":
+                    f.write(data)
+                raise KeyboardInterrupt("writer interrupted")
+            A.pickle = types.SimpleNamespace(**{k: getattr(_pickle, k) for k in dir(_pickle) if not k.startswith("__")})
+            A.pickle.dump = dump
+            try:
+                try:
+                    A.transfer_model(d, "T", {"cache": True})
+                except KeyboardInterrupt:
+                    pass
+            finally:
+                A.pickle = _pickle
+            for call in (1, 2):
+                runs += 1
+                try:
+                    m = A.transfer_model(d, "T", {"cache": True})
+                    if not m.states:
+                        bad.append((mode, call, "returned a model without states"))
+                except Exception as e:
+                    bad.append((mode, call, f"{type(e).__name__}: {str(e)[:80]}"))
+        finally:
+            shutil.rmtree(d, ignore_errors=True)
+    logging.disable(logging.NOTSET)
+    return runs, bad
+
+
 def decode(v):
     argtxt = chx.call_args(v.detail) or ""
     toks = re.findall(r"True|False|-?\d+", argtxt)
@@ -259,6 +303,10 @@ def main_c21(a):
     for off, what in bad[:5]:
         rep.violation(f"real-truncation:{what.split(':')[0]}", f"real cache file ({size} bytes) truncated to {off} bytes: transfer_model {what}",
                       {"offset": off, "size": size, "what": what, "all": bad[:20]})
+    ncrash, cbad = real_crash()
+    nreal += ncrash
+    for mode, call, what in cbad[:5]:
+        rep.violation(f"real-crash:{mode}:{what.split(':')[0]}", f"save_model interrupted ({mode}); transfer_model call #{call} afterwards: {what}", {"mode": mode, "call": call, "what": what, "crash": True})
     for v in vs:
         if v.kind in ("counterexample", "exception"):
             args, argtxt = decode(v)
@@ -281,7 +329,7 @@ def main_c21(a):
     cov["exhaustive"] = all(v.kind == "confirmed" for v in vs)
     cov["functions_encoded"] = ["casadi.api.transfer_model, load_model exception handling and fall-back to recompilation (CrossHair)"]
     cov["bounds"] = ("reader observation in {no file, empty file, strict prefix, complete file} x unpickling exception in {UnpicklingError, EOFError, AttributeError, ImportError, IndexError} "
-                     "x cache/codegen x version x mtimes (unbounded ints); real replay: a real cache file truncated at ~50 offsets")
+                     "x cache/codegen x version x mtimes (unbounded ints); real stages: a real cache file truncated at ~50 offsets; the real save_model interrupted before the first byte / mid-dump / after the dump, followed by two real transfer_model calls")
     rep.assumptions += ["crash points and reader/writer interleavings are abstracted to what the reader can observe of the single cache file (absent, empty, strict prefix, complete) "
                         "and to the documented set of exceptions unpickling damaged input raises; byte offsets are exercised only in the real replay",
                         "true two-process interleavings are outside the claim"]
@@ -296,6 +344,10 @@ def main(prop):
         if prop == "C20":
             res = getattr(h20, r.get("function", "stale"))(*r["args"])
         else:
+            if r.get("crash"):
+                _, bad = real_crash()
+                print(bad[:5])
+                return 1 if bad else 0
             if "offset" in r:
                 _, _, bad = real_damaged()
                 print(bad[:5])
